@@ -1,7 +1,4 @@
 NA_REASONS = {
-    'C08': 'statistics: floating-point results and thread schedules are the subject; the engine has no floating-point '
-           'reasoning beyond integer-valued doubles and no concurrency; the narrow integer general_stat fragment was not '
-           'built in this round, so nothing is claimed',
     'C17': 'parse_* / dump_text convert symbolic strings to int/float and Base64 through C-implemented codecs which '
            'CrossHair realises (inconclusive on str->float and binascii); no sound check could be built in this round',
 }
